@@ -325,7 +325,7 @@ def hunt2_rules(chk, repo):
     srv = repo.cls(SRV, "Server")
     ps, cm = srv.methods["pre_shutdown"], srv.methods["connection_made"]
     flags = {norm.raw(a.targets[0]) for a in ast.walk(ps.node) if isinstance(a, ast.Assign) and isinstance(a.value, ast.Constant) and a.value.value is True}
-    seen = [i for i in ast.walk(cm.node) if isinstance(i, ast.If) and norm.raw(i.test) in flags and any(isinstance(c, ast.Call) and isinstance(c.func, ast.Attribute) and c.func.attr in ("close", "abort") for b_ in i.body for c in ast.walk(b_))]
+    seen = [i for i in ast.walk(cm.node) if isinstance(i, ast.If) and any(l.pos and any(l.text == f or l.text in (f + " is True", f + " == True") for f in flags) for c_ in norm.cnf_raw(i.test, True) if len(c_) == 1 for l in c_) and any(isinstance(c, ast.Call) and isinstance(c.func, ast.Attribute) and c.func.attr in ("close", "abort") for b_ in i.body for c in ast.walk(b_))]
     if seen:
         chk.ok("C20.accept", seen[0], "Server.connection_made(): a connection registered after pre_shutdown() is closed at once")
     else:
